@@ -7,6 +7,7 @@ import subprocess
 import tempfile
 
 from .. import core, memwire, sshutil
+from .. import c02_enc
 from ..core import zl, cz, cbool, clist
 
 IMPORTS = 'From AV Require Import Base.Prelude Model.Packet Corr.C02Corr.'
@@ -540,6 +541,10 @@ def run(ctx):
     ctx.prove()
     stage_derive(ctx)
     stage_feed(ctx)
+    try:
+        c02_enc.stage_enc(ctx)
+    except Exception as e:
+        ctx.broke('stage:enc', repr(e))
     stage_minissh(ctx)
     stage_e2e(ctx)
     stage_openssh(ctx)
